@@ -152,6 +152,7 @@ func loadProgram(repoDir string, cgKind string) (*Program, error) {
 	p.findRoots()
 	p.computeReach()
 	p.computeReachS()
+	summaryProgram = p
 	return p, nil
 }
 
